@@ -46,6 +46,7 @@ func main() {
 		"the intro line is fixed in part (i); it has its own family (ii-b): every single-byte insertion/deletion/substitution over all 256 byte values, case changes, version-number respellings, prefix/suffix variants, each before 4 valid headers with payload",
 		"the version number is the only number internal/format interprets; the scrypt work factor is an opaque argument here and belongs to C10",
 		"payload lengths: short tails everywhere; resource-shaped totals (4 KiB .. 17 MiB, thorough also 64 MiB and 4 GiB + 1) only behind three headers in part (iv), in quick only a dozen reads at 16-17 MiB",
+		"command line routes: one X25519 file with a 3-byte plaintext, ~30 header variants, 7 input routes of `age -d`; on the terminal routes only what the line discipline delivers is judged",
 		"readers deliver data in the patterns of mon.Schedules (no (0,nil) reads, no read errors: those belong to C12/C13)",
 		"the differential is one-directional: refage-well-formed => accepted; a larger accepted language is not a C07 violation while the round trip holds",
 		"long lines: stanza opening lines of 4096+-64, 8192+-8, 65536+-8, 100000 and 1000000 bytes only; body lines are at most 65 bytes in any accepted header, so only opening lines can exceed a buffer",
@@ -119,6 +120,8 @@ func main() {
 	lap("(v) edited parsed headers")
 	runStream(o)
 	lap("(iv) streamed payload lengths")
+	runCLI(o)
+	lap("(vi) command line routes")
 
 	// sanity: each part must have produced both verdicts
 	for _, p := range []string{"tokens", "mutation", "intro", "generated", "longline", "edited", "stream"} {
